@@ -480,6 +480,14 @@ class Effects(object):
             rt = typer.expr_type(f.value, fi)
             prim_recv = bool(rt.prims) and not rt.classes and not rt.clsobjs
             unknown_recv = rt.is_empty()
+            if (prim_recv or unknown_recv) and a == "setdefault" and call.args and (prim_recv or not self.cg._defined_anywhere(a)):
+                # d.setdefault(k, v) returns the element already stored or v itself (which is then stored)
+                dflt = argo[1] if len(argo) > 1 else frozenset([("new", "const")])
+                out = set(self._elems(recv, st)) | set(dflt)
+                for b in recv:
+                    if b != U and b[0] != "c":
+                        st.heap[(b, "*")] = st.heap.get((b, "*"), frozenset()) | frozenset(dflt)
+                return frozenset(out)
             if prim_recv or unknown_recv:
                 if a in VIEW_METHODS:
                     return frozenset(norm_tok(("c", b)) for b in recv)
